@@ -175,7 +175,9 @@ def record(m, text, neutral=()):
 
 
 PAYLOADS = ['a}b', 'a{b', 'a%b', 'a#b', 'a_b', 'a^b', 'a&b', 'a\\b', 'a\\', '\\end{document}', '\\{', '}{', '%}', '\\\\', '~', 'a b', '\\input{x}', '{}', '\\%', 'x\\}',
-            'a%20}b', '%7E\\input{f}', 'a%2Fb}{c', '%41$1^2', '{inner}', '{target}', '{0}', '%s', '{tag}', 'a%', '%%', '%7B', 'x#y', 'x%23y#z']
+            'a%20}b', '%7E\\input{f}', 'a%2Fb}{c', '%41$1^2', '{inner}', '{target}', '{0}', '%s', '{tag}', 'a%', '%%', '%7B', 'x#y', 'x%23y#z',
+            # dollar runs: well-formed math spans are passed through, anything else is text
+            '$x^2$', '$$x_1$$', '$$x^2$', '$a_1$$', 'a $$n$ b $', '$', '$$', '$$$x$', '$x$$$', 'a$b$c$d']
 TEMPLATES = ['{p}', '# {p}', '**{p}**', '*{p}*', '~~{p}~~', '[a]({p})', '[{p}](u)', '![a]({p})', '![{p}](x)', '<http://x/{p}>', '```{p}\ncode\n```', '`{p}`',
              '> {p}', '- {p}', '| {p} |\n|---|\n| {p} |', '    {p}', '```\n{p}\n```', '[a][r]\n\n[r]: {p}', '{p}\n===', '1. {p}', '\\{p}', 'a {p}\\\nb',
              '[*c* {x}](/u \'{p}\')', '[**s** 50%]({p})', '[`co` & x][r]\n\n[r]: {p} "t"',
